@@ -55,7 +55,11 @@ TBatch ==
         /\ bound' = 1..NAbsorb(Ev) /\ rbound' = IF NSqueeze(Ev) = 1 THEN 1..NAbsorb(Ev) ELSE {}
         /\ acc' = {k \in 1..n : Ev.singles[k] # "ok"} /\ i' = n + 1
 
-TNext == THeader \/ TBatch
+\* the pool the batches are drawn from: a batch of one accepts exactly the members that are valid by construction
+TPool == l <= Len(Rec) /\ Ev.ev = "Pool" /\ l' = l + 1 /\ UNCHANGED vars
+         /\ Ev.single = (IF Ev.expect_ok THEN "ok" ELSE "err")
+
+TNext == THeader \/ TBatch \/ TPool
 TraceSpec == TInit /\ [][TNext]_tvars
 
 \* the state reached after every line satisfies Batch's invariants
